@@ -71,7 +71,46 @@ mod verif_codecs {
     }
 
     // ------------------------------------------------------------------ C09
-    //@defaults unit=U09.4 props=C09,C20 tier=quick level=bounded bound="one contour of 2 points, every coordinate pair whose deltas fit i16, on-curve flags symbolic" timeout=900
+    //@defaults unit=U09.4 props=C09,C20 tier=quick level=bounded bound="one contour of 1 point, every i16 coordinate pair, on-curve flag symbolic" timeout=900
+    //@harness fns=SimpleGlyph::write_into,SimpleGlyph::compute_point_deltas,flag_and_delta,RepeatableFlag::iter_from_flags,read_fonts::SimpleGlyph::points,read_fonts::SimpleGlyph::read_points_fast note="the first point's delta is its coordinate, so every i16 delta value (skip / short +- / long encodings and their boundaries) is exercised on both axes"
+    #[kani::proof]
+    #[kani::unwind(6)]
+    #[kani::stub(std::hash::RandomState::new, fixed_random_state)]
+    #[kani::stub(TableWriter::write_slice, write_slice_sink)]
+    #[kani::stub(TableWriter::pad_to_2byte_aligned, pad_sink)]
+    fn simple_glyph_one_point_roundtrip() {
+        use crate::tables::glyf::{Bbox, Contour, SimpleGlyph};
+        use read_fonts::tables::glyf::CurvePoint;
+        let (x0, y0): (i16, i16) = (kani::any(), kani::any());
+        let on0: bool = kani::any();
+        let mut g = SimpleGlyph {
+            bbox: Bbox::default(),
+            contours: vec![Contour::from(vec![CurvePoint::new(x0, y0, on0)])],
+            instructions: vec![],
+        };
+        g.recompute_bounding_box();
+        reset_sink();
+        let mut w = TableWriter::default();
+        g.write_into(&mut w);
+        let (bytes, n) = sink_bytes();
+        assert!(n % 2 == 0 && n >= 16);
+        let r = read_fonts::tables::glyf::SimpleGlyph::read(FontData::new(&bytes[..n]));
+        assert!(r.is_ok());
+        let r = r.unwrap();
+        assert!(r.num_points() == 1 && r.end_pts_of_contours().len() == 1 && r.end_pts_of_contours()[0].get() == 0);
+        assert!(r.x_min() == x0 && r.x_max() == x0 && r.y_min() == y0 && r.y_max() == y0);
+        let mut it = r.points();
+        assert!(it.next() == Some(CurvePoint::new(x0, y0, on0)));
+        assert!(it.next().is_none());
+        let mut pts = [read_fonts::types::Point::<i32>::default(); 1];
+        let mut fl = [read_fonts::tables::glyf::PointFlags::default(); 1];
+        assert!(r.read_points_fast(&mut pts, &mut fl).is_ok());
+        assert!(pts[0].x == x0 as i32 && pts[0].y == y0 as i32 && fl[0].is_on_curve() == on0);
+        kani::cover!(x0 == -256);
+        kani::cover!(x0 == 255 && y0 == 0);
+        kani::cover!(y0 == i16::MIN);
+    }
+    //@defaults unit=U09.4 props=C09,C20 tier=thorough level=bounded bound="one contour of 2 points, every coordinate pair whose deltas fit i16, on-curve flags symbolic" timeout=2400
     //@harness fns=SimpleGlyph::write_into,SimpleGlyph::compute_point_deltas,flag_and_delta,RepeatableFlag::iter_from_flags,read_fonts::SimpleGlyph::points,read_fonts::SimpleGlyph::read_points_fast
     #[kani::proof]
     #[kani::unwind(8)]
@@ -114,7 +153,7 @@ mod verif_codecs {
         kani::cover!(x1 - x0 == 256 && y1 == y0);
         kani::cover!(x0 == x1 && y0 == y1 && on0 == on1);
     }
-    //@harness fns=Loca::new,LocaFormat::new,Loca::write_into,read_fonts::Loca::get_raw unit=U09.3 bound="3 offsets, each any u32"
+    //@harness fns=Loca::new,LocaFormat::new,Loca::write_into,read_fonts::Loca::get_raw unit=U09.3 tier=quick timeout=900 bound="3 offsets, each any u32"
     #[kani::proof]
     #[kani::unwind(8)]
     #[kani::stub(std::hash::RandomState::new, fixed_random_state)]
@@ -170,16 +209,8 @@ mod verif_codecs {
     // ------------------------------------------------------------------ C10: declared size == written size
     static mut COUNT: usize = 0;
     fn write_slice_count(_w: &mut TableWriter, bytes: &[u8]) { unsafe { COUNT += bytes.len(); } }
-    //@harness unit=U10.3 props=C10 tier=quick level=bounded bound="point-number sets of exactly 1, 127, 128 and 129 consecutive points (the count-encoding boundary)" timeout=900 fns=PackedPointNumbers::compute_size,PackedPointNumbers::write_into note="the size a tuple header declares for its point numbers equals the number of bytes written"
-    #[kani::proof]
-    #[kani::unwind(132)]
-    #[kani::stub(std::hash::RandomState::new, fixed_random_state)]
-    #[kani::stub(TableWriter::write_slice, write_slice_count)]
-    fn packed_points_declared_size_matches_written() {
-        let which: u8 = kani::any();
-        kani::assume(which < 4);
-        let n: usize = match which { 0 => 1, 1 => 127, 2 => 128, _ => 129 };
-        let mut pts: Vec<u16> = Vec::with_capacity(129);
+    fn declared_size_matches_written(n: usize) {
+        let mut pts: Vec<u16> = Vec::with_capacity(130);
         let mut i = 0;
         while i < n { pts.push(i as u16 * 2); i += 1; }
         let pp = crate::tables::variations::PackedPointNumbers::Some(pts);
@@ -188,6 +219,25 @@ mod verif_codecs {
         pp.write_into(&mut w);
         let written = unsafe { COUNT };
         assert!(pp.compute_size() as usize == written);
-        kani::cover!(which == 2);
+        kani::cover!(written > n);
     }
+    //@defaults unit=U10.3 props=C10 tier=quick level=bounded bound="point-number sets of exactly 127 / 128 / 129 points (the count-encoding boundary), concrete values" timeout=900
+    //@harness fns=PackedPointNumbers::compute_size,PackedPointNumbers::write_into note="the size a tuple header declares for its point numbers equals the number of bytes written"
+    #[kani::proof]
+    #[kani::unwind(132)]
+    #[kani::stub(std::hash::RandomState::new, fixed_random_state)]
+    #[kani::stub(TableWriter::write_slice, write_slice_count)]
+    fn packed_points_declared_size_127() { declared_size_matches_written(127) }
+    //@harness fns=PackedPointNumbers::compute_size
+    #[kani::proof]
+    #[kani::unwind(132)]
+    #[kani::stub(std::hash::RandomState::new, fixed_random_state)]
+    #[kani::stub(TableWriter::write_slice, write_slice_count)]
+    fn packed_points_declared_size_128() { declared_size_matches_written(128) }
+    //@harness fns=PackedPointNumbers::compute_size
+    #[kani::proof]
+    #[kani::unwind(132)]
+    #[kani::stub(std::hash::RandomState::new, fixed_random_state)]
+    #[kani::stub(TableWriter::write_slice, write_slice_count)]
+    fn packed_points_declared_size_129() { declared_size_matches_written(129) }
 }
